@@ -55,6 +55,9 @@ ASSUMPTIONS = ["weights and sums below 2^53",
                "about re-weightings leaking between calls; no function of package codon writes a StartCodons / StopCodons "
                "element, so no sequence of package calls can observe this sharing - only a caller that assigns into the returned "
                "slices does. The models carry both lists as immutable values accordingly (Model/CodonTables.lean, heap model)",
+               "pairs outside the property (different codes, empty / malformed tables, an amino acid that never occurs, negative "
+               "weights): only the rejection of out-of-range cut-offs is judged and corresponded; everything else such a pair "
+               "returns is drift (class suffix /outside-drift)",
                "cut-offs that are NaN or +/-Inf are outside the quantifier ([-1,2]): correspondence only, not judged", "amd64: int(NaN) = -2^63 (only reachable outside the judged domain)",
                "inputs are ASCII"]
 PARTIAL = ["the numeric clauses are theorems for TWO readings: exact arithmetic (Props/C18: compromise_weight, _mean, _zero_below, "
